@@ -14,7 +14,7 @@ use serde_json::{json, Value};
 use super::{ncpu, secs, standard_run, Check};
 use crate::dirmodel::{is_effect, DirModel, FileObj};
 use crate::orch::{even_plans, hex, show, CheckSpec, Ctx, Out, Tier};
-use crate::plan::{gen_plan, model_after, plan_json, run_recorded, POp, Plan, PlanOpts};
+use crate::plan::{gen_plan, plan_json, run_recorded, OpRes, POp, Plan, PlanOpts};
 use crate::rng::Rng;
 use crate::seqeng::{fail, Fail};
 use crate::shim::*;
@@ -270,24 +270,37 @@ fn boundaries(events: &[Ev], with_sync: bool) -> Vec<Boundary> {
     out
 }
 
-fn expectation(plan: &Plan, b: &Boundary) -> Expect {
-    let base = model_after(plan, b.acked, None);
-    let alt = match b.inflight {
-        Some(i) if i != usize::MAX && plan.ops[i].mutates() => Some((plan.ops[i].key().unwrap(), model_after(plan, i + 1, None))),
-        _ => None,
-    };
-    let mut e: Expect = Vec::new();
-    for (ki, k) in plan.keys.iter().enumerate() {
-        let mut allowed = vec![base.get(k).cloned()];
-        if let Some((fk, m)) = &alt {
-            if *fk == ki {
-                let a = m.get(k).cloned();
-                if !allowed.contains(&a) {
-                    allowed.push(a);
-                }
+fn expectation(plan: &Plan, b: &Boundary, results: &[OpRes]) -> Expect {
+    // per key: what it may read as. An acknowledged write leaves exactly its value; a write that
+    // returned an error (an injected I/O failure) may or may not have taken effect, and so may the
+    // operation in flight at the kill
+    let mut allowed: HashMap<Vec<u8>, Vec<Option<Vec<u8>>>> = HashMap::new();
+    let mut note = |i: usize, sure: bool| {
+        let (k, want) = match &plan.ops[i] {
+            POp::Set { k, v } => (plan.keys[*k].clone(), Some(v.clone())),
+            POp::Del { k } => (plan.keys[*k].clone(), None),
+            _ => return,
+        };
+        if sure {
+            allowed.insert(k, vec![want]);
+        } else {
+            let a = allowed.entry(k).or_insert_with(|| vec![None]);
+            if !a.contains(&want) {
+                a.push(want);
             }
         }
-        e.push((k.clone(), allowed));
+    };
+    for i in 0..b.acked.min(plan.ops.len()) {
+        note(i, !results.get(i).map(|r| r.is_err()).unwrap_or(true));
+    }
+    if let Some(i) = b.inflight {
+        if i != usize::MAX && i < plan.ops.len() {
+            note(i, false);
+        }
+    }
+    let mut e: Expect = Vec::new();
+    for k in plan.keys.iter() {
+        e.push((k.clone(), allowed.get(k).cloned().unwrap_or_else(|| vec![None])));
     }
     e.push((b"\x01never-written\x02".to_vec(), vec![None]));
     e
@@ -314,13 +327,54 @@ fn episode(ctx: &Ctx, case: u64, out: &mut Out) {
     if short {
         crate::shim::short_writes(500_000, Rng::derive(ctx.seed, 0xC03_5000_0000 ^ case).next_u64() | 1);
     }
-    let rec = run_recorded(&dir, &plan, true, |_| {});
+    // another quarter: one file-system call of the episode fails (ENOSPC/EIO on a create, write,
+    // fsync or unlink). The operation it belongs to returns an error and may or may not have taken
+    // effect; everything acknowledged before and after it has to survive the kill / power loss
+    // all the same (a merge repeated after it failed, a file abandoned after a failed append)
+    let fault_at = if case % 4 == 1 {
+        // half of the time inside a merge pass (its calls are many: up to the 16th), else anywhere
+        let merges: Vec<usize> = plan.ops.iter().enumerate().filter(|(_, o)| matches!(o, POp::Merge)).map(|(i, _)| i).collect();
+        let (at, nth) = if !merges.is_empty() && r.chance(1, 2) { (*r.pick(&merges), r.below(16) as i64) } else { (r.below(plan.ops.len() as u64) as usize, r.below(5) as i64) };
+        Some((at, nth, if r.chance(1, 2) { libc::ENOSPC } else { libc::EIO }))
+    } else {
+        None
+    };
+    let rec = run_recorded(&dir, &plan, true, |i| {
+        if let Some((at, nth, errno)) = fault_at {
+            if i == at {
+                crate::shim::fail(C_CREATE | C_WRITE | C_FSYNC | C_UNLINK, F_ANY, nth, errno);
+            }
+        }
+    });
+    let fault_hit = fault_at.is_some() && crate::shim::fail_hit().is_some();
+    crate::shim::fail_off();
     crate::shim::short_writes(0, 0);
     out.count("episodes_recorded", 1);
     if short {
         out.count("episodes_with_short_writes", 1);
     }
-    if rec.open_err.is_some() || rec.results.iter().any(|x| x.is_err()) {
+    if fault_hit {
+        out.count("episodes_with_one_failed_call", 1);
+    }
+    // the one operation during which the injected failure happened may return an error
+    let faulted_op: Option<usize> = if fault_hit {
+        let mut cur = None;
+        let mut found = None;
+        for e in &rec.events {
+            if e.is_mark(M_OP_BEGIN) && e.a != u64::MAX {
+                cur = Some(e.a as usize);
+            } else if e.is_mark(M_OP_END) {
+                cur = None;
+            } else if e.injected() {
+                found = cur;
+            }
+        }
+        found
+    } else {
+        None
+    };
+    let other_failures = rec.results.iter().enumerate().any(|(i, x)| x.is_err() && Some(i) != faulted_op) || rec.results.iter().any(|x| matches!(x, OpRes::Panic(_))) || rec.results.len() < plan.ops.len();
+    if rec.open_err.is_some() || other_failures {
         // an operation failing without any fault is C01's subject, not a crash question
         out.count("episodes_skipped_op_failed", 1);
         let _ = std::fs::remove_dir_all(&dir);
@@ -364,7 +418,7 @@ fn episode(ctx: &Ctx, case: u64, out: &mut Out) {
             }
         }
         let phase = phase_of(&plan, b.inflight, last);
-        let expect = expectation(&plan, b);
+        let expect = expectation(&plan, b, &rec.results);
         // which states to build at this point
         let mut variants: Vec<(String, Option<HashMap<String, usize>>)> = Vec::new();
         if !power {
